@@ -13,6 +13,7 @@ package harness
 // also emitted as Coq text for Run/CloseGuardRun.v, where the model replays the decisions.
 
 import (
+	"os"
 	"errors"
 	"fmt"
 	"math/big"
@@ -97,8 +98,14 @@ func c10Gen(r *Rng, id int) c10Hist {
 			h.Ops = append(h.Ops, c10Op{Op: "lev_close", U: u, Idx: r.Intn(4), Rel: r.Intn(6)})
 		case x < 35:
 			h.Ops = append(h.Ops, c10Op{Op: "lev_cp", U: u, Items: c10Items(r, false)})
-		case x < 39:
+		case x < 37:
 			h.Ops = append(h.Ops, c10Op{Op: "lev_sl_boundary", U: u, Idx: r.Intn(4), Dir: r.Intn(3)})
+		case x < 39:
+			// a sizeable position (several % of the pool), a smaller one, then the two-request stop-loss batch
+			h.Ops = append(h.Ops, c10Op{Op: "lev_open", U: (u + 1) % 5, Amt: fmt.Sprint(r.Pick(2000000000, 4000000000, 6000000000)), Lev: "3", Rel: 0},
+				c10Op{Op: "lev_open", U: (u + 2) % 5, Amt: r.Decade(6, 9).String(), Lev: levs[r.Intn(4)], Rel: 0},
+				c10Op{Op: "blocks", N: 1, DT: 3700}, // past the one-hour lock of the freshly committed LP shares, or A's close fails
+				c10Op{Op: "lev_sl_batch", U: u, Idx: r.Intn(4), Dir: r.Intn(3), Rel: r.Intn(4) / 3})
 		case x < 44:
 			h.Ops = append(h.Ops, c10Op{Op: "lev_liq_boundary", U: u, Idx: r.Intn(4), Dir: r.Intn(3)})
 		case x < 46:
@@ -1407,6 +1414,35 @@ func (r *c10Run) exec(op c10Op) TxResult {
 		w.Deliver(&levtypes.MsgUpdateStopLoss{Creator: p.Address, Position: p.Id, Price: v})
 		r.count(fmt.Sprintf("lev_sl_boundary_delta%d", op.Dir%3))
 		return r.closePositions(false, u, []c10Req{{kind: 1, owner: sdk.MustAccAddressFromBech32(p.Address), id: p.Id}})
+	case "lev_sl_batch":
+		// ONE message, two stop-loss requests on the same pool: A (the largest position) has its stop loss reached and is
+		// legitimately closed first, which moves the pool (shares burned, reserves paid out); B's stop loss sits just BELOW
+		// the lp price (not reached, by 0.1% / 1% / 3%): B's guard must be evaluated on the state A's close leaves behind
+		ps := w.App.LeveragelpKeeper.GetAllPositions(w.QCtx())
+		lp, ok := r.lpPrice()
+		if len(ps) < 2 || !ok {
+			return TxResult{Err: fmt.Errorf("skip")}
+		}
+		ai := 0
+		for i := range ps {
+			if ps[i].LeveragedLpAmount.GT(ps[ai].LeveragedLpAmount) {
+				ai = i
+			}
+		}
+		bi := (ai + 1 + op.Idx%(len(ps)-1)) % len(ps)
+		a, b := ps[ai], ps[bi]
+		below := []string{"0.999", "0.99", "0.97"}[op.Dir%3]
+		ra := w.Deliver(&levtypes.MsgUpdateStopLoss{Creator: a.Address, Position: a.Id, Price: lp.Mul(dec("1.01"))})
+		rb := w.Deliver(&levtypes.MsgUpdateStopLoss{Creator: b.Address, Position: b.Id, Price: lp.Mul(dec(below))})
+		if os.Getenv("VERIF_REPLAY") != "" {
+			fmt.Printf("replay lev_sl_batch: lp %s A %s/%d size %s update %s %v; B %s/%d size %s update %s %v\n", lp, a.Address, a.Id, a.LeveragedLpAmount, ra.Kind(), ra.Err, b.Address, b.Id, b.LeveragedLpAmount, rb.Kind(), rb.Err)
+		}
+		r.count("lev_sl_batch_" + below)
+		reqs := []c10Req{{kind: 1, owner: sdk.MustAccAddressFromBech32(a.Address), id: a.Id}, {kind: 1, owner: sdk.MustAccAddressFromBech32(b.Address), id: b.Id}}
+		if op.Rel == 1 { // liquidation request for A first instead (refused unless unhealthy), then B's stop loss
+			reqs[0].kind = 0
+		}
+		return r.closePositions(false, u, reqs)
 	case "perp_trigger_boundary":
 		ms := w.App.PerpetualKeeper.GetAllMTPs(w.QCtx())
 		if len(ms) == 0 {
